@@ -436,7 +436,7 @@ def runner_arms(chk, f):
     """decode `match self.reader.read_site()` in Runner::run: returns dict with the switch blocks and
     the arm targets Standard/Projected/InsufficientData/Error/Done and the scs local"""
     rs_bb = an.calls(f, READ_SITE)[0][0]
-    sws = an.switches_on_call_result(f, rs_bb)
+    sws = an.switches_on_call_result(f, rs_bb, through_payload=True)
     outer = None
     inner = None
     for b, s in sws:
@@ -593,7 +593,7 @@ def check_C02(chk):
     c02e(chk)
     c02f(chk)
     c02g(chk)
-    for r, n in (("C02.a", 8), ("C02.b", 10), ("C02.c", 3), ("C02.d", 2), ("C02.e", 1), ("C02.f", 1), ("C02.g", 7)):
+    for r, n in (("C02.a", 10), ("C02.b", 10), ("C02.c", 3), ("C02.d", 2), ("C02.e", 1), ("C02.f", 1), ("C02.g", 7)):
         chk.floor(r, n)
 
 
@@ -619,122 +619,94 @@ def _param_root(g, op, depth=0):
 
 
 def c02a(chk, rs):
+    import iters as IT
     f = rs.fn
-    g = chk.fn(FOLD_CLOSURE)
-    if g is None:
+    prog = chk.prog
+    its = IT.iterations(prog, f)
+    in_body = set()
+    for it in its:
+        if it.kind == "loop" and it.parent is f:
+            in_body |= it.blocks
+    # the switches of the projection branch that test a per-axis conjunction flag
+    flags = []
+    for b, t in f.switches():
+        if not rs.in_proj(b) or b in in_body:
+            continue
+        s = an.switch_subject(f, b)
+        if s["kind"] != "value" or s["root"] is None:
+            continue
+        cf = IT.conj_flag(prog, f, its, s["root"])
+        if cf is not None:
+            flags.append((b, cf))
+            chk.fns_analysed.add(cf["it"].body.path)
+    EXACT = {("Eq", (0,), (1,)), ("Eq", (1,), (0,))}
+    PROJ = {("Ge", (0,), (1,)), ("Le", (1,), (0,))}
+    def klass(cf):
+        if len(cf["cmps"]) == 1 and not cf["calls"]:
+            if cf["cmps"][0] in EXACT:
+                return "exact"
+            if cf["cmps"][0] in PROJ:
+                return "projectable"
+        return None
+    by = {"exact": [], "projectable": []}
+    for b, cf in flags:
+        k = klass(cf)
+        if k:
+            by[k].append((b, cf))
+    desc = [(f.loc(b), cf["form"], cf["cmps"]) for b, cf in flags]
+    if not flags:
+        chk.fail("C02.a", "read_site/fold", f.loc(), "no per-axis conjunction (fold / loop / all over (total, to) pairs) decides the projection branch")
         return
-    # the fold call in read_site
-    folds = [(b, t) for b, t in f.calls() if callee_is(t["callee"], N.FOLD) and any((a.get("k") != "const") and op_local(a) is not None and "closure" in f.local_ty(op_local(a)) for a in t["args"])]
-    folds = [(b, t) for b, t in folds if rs.in_proj(b)]
-    if len(folds) != 1:
-        chk.fail("C02.a", "read_site/fold", f.loc(), "expected exactly one fold in the projection branch, found %d" % len(folds))
-        return
-    fb, ft = folds[0]
-    chk.saw_calls()
-    # zip roles: receiver from self.totals, other from project_to()
-    zl = op_local(ft["args"][0])
-    zd = f.single_def(f.copy_root(zl)) if zl is not None else None
-    roles_ok = False
-    why = "zip not recognised"
-    if zd and zd[0] == "call" and callee_is(zd[2]["callee"], N.ZIP):
-        s0, i0 = f.slice_locals(zd[2]["args"][0])
-        s1, i1 = f.slice_locals(zd[2]["args"][1])
-        first_totals = ("sfs_core::input::site::reader::Reader", "totals") in i0["fields"] and ("sfs_core::input::site::reader::Reader", "counts") not in i0["fields"]
-        second_to = any(callee_is(t["callee"], "sfs_core::spectrum::project::PartialProjection::project_to") for _, t in i1["calls"])
-        roles_ok = first_totals and second_to
-        why = "first=self.totals:%s second=project_to():%s" % (first_totals, second_to)
-    chk.ob("C02.a", "read_site/fold/zip(totals, project_to)", roles_ok, f.loc(fb), "the fold must run over (total, to) pairs: " + why)
-    # accumulator init (true, true)
-    init = ft["args"][1]
-    il = op_local(init)
-    idf = f.single_def(il) if il is not None else None
-    init_ok = bool(idf and idf[0] == "assign" and idf[3]["k"] == "aggregate" and [const_val(o) for o in idf[3]["ops"]] == [True, True])
-    chk.ob("C02.a", "read_site/fold/init=(true,true)", init_ok, f.loc(fb), "fold accumulator must start as (exact=true, projectable=true)")
-    # closure: comparison operators on (total, to)
-    # params: _2 = acc (bool,bool), _3 = (&total, &to)
-    def leaf_role(op):
-        """'total' | 'to' | None for an operand inside the closure"""
-        l = op_local(op)
-        if l is None:
-            return None
-        sl, info = g.slice_locals(op, through_calls=False)
-        roles = set()
-        for x in sl:
-            for d in g.defs.get(x, []):
-                if d[0] == "assign" and d[3]["k"] == "use":
-                    p = op_place(d[3]["op"])
-                    if p and p[0] == 3 and p[1] and p[1][0][0] == "field":
-                        roles.add("total" if p[1][0][1] == 0 else "to")
-        return roles.pop() if len(roles) == 1 else None
-    ret = [d for d in g.defs.get(0, []) if d[0] == "assign"]
-    if len(ret) != 1 or ret[0][3]["k"] != "aggregate" or len(ret[0][3]["ops"]) != 2:
-        chk.fail("C02.a", "fold-closure/return-shape", g.loc(), "closure must return one (bool, bool) tuple")
-        return
-    expect = {0: ("exact", {("Eq", "total", "to"), ("Eq", "to", "total")}),
-              1: ("projectable", {("Ge", "total", "to"), ("Le", "to", "total")})}
-    for idx in (0, 1):
-        nm, allowed = expect[idx]
-        sl, info = g.slice_locals(ret[0][3]["ops"][idx], through_calls=True)
-        cmps = [(b["op"], leaf_role(b["l"]), leaf_role(b["r"])) for b in info["binops"]]
-        ok = len(cmps) == 1 and cmps[0] in allowed and not info["calls"]
-        chk.ob("C02.a", "fold-closure/%s-operator" % nm, ok, g.loc(),
-               "%s must be decided by exactly %s (found %s)" % (nm, " or ".join("%s(%s,%s)" % a for a in sorted(allowed)), cmps))
-        # conjunction with the same accumulator component
-        acc_fields = set()
-        for x in sl:
-            for d in g.defs.get(x, []):
-                if d[0] == "assign" and d[3]["k"] == "use":
-                    p = op_place(d[3]["op"])
-                    if p and p[0] == 2 and p[1] and p[1][0][0] == "field":
-                        acc_fields.add(p[1][0][1])
-        # control dependence: the switch guarding the comparison reads acc.idx
-        for b, t in g.switches():
-            s = an.switch_subject(g, b)
-            if s["root"] is not None:
-                for d in g.defs.get(s["root"], []):
-                    if d[0] == "assign" and d[3]["k"] == "use":
-                        p = op_place(d[3]["op"])
-                        if p and p[0] == 2 and p[1] and p[1][0][0] == "field":
-                            # does this switch decide our component? its arms assign the component's local
-                            tgt_local = op_local(ret[0][3]["ops"][idx])
-                            for sb in g.succ.get(b, []):
-                                for bb2 in an.arm_region(g, b, sb):
-                                    for st in g.stmts(bb2):
-                                        if st["k"] == "assign" and P(st["place"]) == (tgt_local, ()):
-                                            acc_fields.add(("guard", p[1][0][1]))
-        guards = {x[1] for x in acc_fields if isinstance(x, tuple)}
-        chk.ob("C02.a", "fold-closure/%s-accumulates-own-flag" % nm, guards == {idx}, g.loc(),
-               "component %d must be and-ed with accumulator component %d only (guards read: %s)" % (idx, idx, sorted(guards)))
-    # the closure contains no comparison other than those two (a comparison that only steers control flow, e.g.
+    sw = {}
+    for nm, what in (("exact", "total == to"), ("projectable", "total >= to")):
+        cands = by[nm]
+        ok = len(cands) == 1
+        where = cands[0][1]["where"] if cands else f.loc()
+        chk.ob("C02.a", "fold-closure/%s-operator" % nm, ok, where,
+               "%s must be the conjunction over all axes of exactly `%s` (element part 0 = total, 1 = to); conjunction flags found: %s" % (nm, what, desc))
+        if not ok:
+            continue
+        b, cf = cands[0]
+        sw[nm] = b
+        chk.saw_calls()
+        chk.ob("C02.a", "fold-closure/%s-accumulates-own-flag" % nm, cf["own"], cf["where"],
+               "the %s flag must be and-ed with itself only, for every pair (%s form)" % (nm, cf["form"]))
+        chk.ob("C02.a", "read_site/fold/init=(true,true)[%s]" % nm, cf["init"] is True, cf["where"], "the %s flag must start as true (found %s)" % (nm, cf["init"]))
+        # zip roles: receiver from self.totals, other from project_to(); every pair is visited
+        it = cf["it"]
+        ch = it.chain()
+        zt = IT.chain_get(ch, "zip")
+        roles_ok = False
+        why = "zip not recognised (chain %s)" % IT.chain_names(ch)
+        if zt is not None and IT.chain_names(ch)[0] == "zip":
+            s0, i0 = f.slice_locals(zt["args"][0])
+            s1, i1 = f.slice_locals(zt["args"][1])
+            first_totals = ("sfs_core::input::site::reader::Reader", "totals") in i0["fields"] and ("sfs_core::input::site::reader::Reader", "counts") not in i0["fields"]
+            second_to = any(callee_is(t_["callee"], "sfs_core::spectrum::project::PartialProjection::project_to") for _, t_ in i1["calls"])
+            plain = [n for n in IT.chain_names(ch) if n not in ("zip", "iter")] == []
+            every = it.runs_for_every_element() or it.consumer == "all"
+            roles_ok = first_totals and second_to and plain and every
+            why = "first=self.totals:%s second=project_to():%s no other adaptor:%s every pair:%s" % (first_totals, second_to, plain, every)
+        chk.ob("C02.a", "read_site/fold/zip(totals, project_to)[%s]" % nm, roles_ok, it.loc(), "the %s flag must run over (total, to) pairs: %s" % (nm, why))
+    # no comparison in the per-pair bodies other than those two (a comparison that only steers control flow, e.g.
     # `total > 0 && total >= to`, is invisible to the data slice)
     allc = []
-    for _, _, _, rv, _ in g.assigns():
-        if rv["k"] == "binop" and rv["op"] in ("Eq", "Ne", "Lt", "Le", "Gt", "Ge"):
-            allc.append((rv["op"], leaf_role(rv["l"]) or ostr(rv["l"]), leaf_role(rv["r"]) or ostr(rv["r"])))
-    for _, t in g.calls():
-        if (t["callee"].get("path") or "").startswith("core::cmp::"):
-            allc.append(("call:" + t["callee"]["path"].split("::")[-1], "?", "?"))
-    allowed_all = {("Eq", "total", "to"), ("Eq", "to", "total"), ("Ge", "total", "to"), ("Le", "to", "total")}
-    extra = [c for c in allc if c not in allowed_all]
-    chk.ob("C02.a", "fold-closure/no-other-comparison", not extra and len(allc) == 2, g.loc(),
-           "the covered-site decision compares (total, to) with == and >= only; every comparison in the closure: %s" % allc)
-    # outcome wiring in read_site
-    res = an.call_dest_local(ft)
-    sw_exact = sw_proj = None
-    for b, t in f.switches():
-        s = an.switch_subject(f, b)
-        if s["kind"] == "value" and s["root"] is not None:
-            d = f.single_def(s["root"])
-            if d and d[0] == "assign" and d[3]["k"] == "use":
-                p = op_place(d[3]["op"])
-                if p and p[0] == res and p[1] and p[1][0][0] == "field":
-                    if p[1][0][1] == 0:
-                        sw_exact = b
-                    else:
-                        sw_proj = b
-    if sw_exact is None or sw_proj is None:
-        chk.fail("C02.a", "read_site/outcome-switches", f.loc(fb), "switches on the fold result's components not recognised")
+    seen_bodies = set()
+    for b, cf in flags:
+        it = cf["it"]
+        key = (it.body.path, it.bb)
+        if key in seen_bodies:
+            continue
+        seen_bodies.add(key)
+        allc += IT.body_comparisons(it)
+    extra = [c for c in allc if c not in EXACT | PROJ]
+    chk.ob("C02.a", "fold-closure/no-other-comparison", not extra and len(allc) == 2, f.loc(),
+           "the covered-site decision compares (total, to) with == and >= only; every comparison in the per-pair bodies: %s" % allc)
+    if "exact" not in sw or "projectable" not in sw:
+        chk.fail("C02.a", "read_site/outcome-switches", f.loc(), "switches on the exact / projectable flags not recognised")
         return
+    sw_exact, sw_proj = sw["exact"], sw["projectable"]
+    fb = sw_exact
     def true_t(b):
         t = f.term(b)
         return t["otherwise"]
@@ -818,80 +790,87 @@ def c02b(chk, rs):
         chk.ob("C02.b", "ProjectIter::new_unchecked/fields", ok, g.loc(), "fields must be (project_from, project_to, from, to, index=0) from arguments 1..4; found %s" % found)
     g = chk.fn(PROJECT_VALUE)
     if g is not None:
-        # zip chain order: collect, in order, the self fields iterated
-        order = []
-        for b2 in g.nodes():
-            for s in g.stmts(b2):
-                if s["k"] == "assign" and s["rv"]["k"] == "use":
-                    p = op_place(s["rv"]["op"])
-                    if p:
-                        fld = an.self_field(p)
-                        if fld:
-                            order.append((b2, fld, P(s["place"])[0]))
-        # verify zip nesting by tracing: outermost zip = zip(zip(zip(A,B),C),D)
-        def zip_tree(op):
-            l = op_local(op)
-            if l is None:
-                return None
-            d = g.single_def(g.copy_root(l))
-            if d and d[0] == "call":
-                c = d[2]["callee"]
-                if callee_is(c, N.ZIP):
-                    return (zip_tree(d[2]["args"][0]), zip_tree(d[2]["args"][1]))
-                if callee_is(c, N.SLICE_ITER, N.DEREF) or callee_is(c, "<sfs_core::spectrum::count::Count as core::ops::deref::Deref>::deref"):
-                    return zip_tree(d[2]["args"][0])
-                return "call:" + callee_name(c)
-            if d and d[0] == "assign":
-                rv = d[3]
-                if rv["k"] == "ref":
-                    p = g.canon(P(rv["place"]))
-                    # (*field_copy) -> field
-                    if p[1] == (("deref",),):
-                        d2 = g.single_def(p[0])
-                        if d2 and d2[0] == "assign" and d2[3]["k"] == "use":
-                            p2 = op_place(d2[3]["op"])
-                            if p2 and an.self_field(p2):
-                                return an.self_field(p2)
-                        if d2 and d2[0] == "call":
-                            return zip_tree({"k": "copy", "place": {"l": p[0], "p": []}})
-                    if an.self_field(p):
-                        return an.self_field(p)
-                if rv["k"] == "use":
-                    p2 = op_place(rv["op"])
-                    if p2 and an.self_field(p2):
-                        return an.self_field(p2)
-            return None
-        maps = [(b2, t2) for b2, t2 in g.calls() if callee_is(t2["callee"], N.MAP)]
-        tree = zip_tree(maps[0][1]["args"][0]) if len(maps) == 1 else None
+        import iters as IT
+        prog = chk.prog
+        its = IT.iterations(prog, g)
+        unit = [g] + prog.closures_of(g.path)
+        hs = [(h, b2, t2) for h in unit for b2, t2 in an.calls(h, HYPERGEOM)]
+        tree = None
+        roles = None
+        nb = None
+        it = None
+        if len(hs) == 1:
+            h, hb, ht = hs[0]
+            chk.fns_analysed.add(h.path)
+            inside = [x for x in its if x.body is h and hb in x.blocks]
+            it = min(inside, key=lambda x: len(x.blocks)) if inside else None
+        if it is not None:
+            # zip nesting, read off the receiver chain: zip(zip(zip(A, B), C), D) has main source A and side sources D, C, B (outermost first)
+            def src_field(ch):
+                pl = ch[-1][1] if ch else None
+                ok_names = [n for n in IT.chain_names(ch) if n not in ("iter",)] == []
+                if pl is None or not ok_names:
+                    return None
+                fld = an.self_field(pl)
+                if fld is None and all(e == ("deref",) for e in pl[1]):
+                    # a copy of a reference-typed field: `_t = (*self).from; &*_t`
+                    d = g.single_def(g.copy_root(pl[0]))
+                    if d and d[0] == "assign" and d[3]["k"] == "use" and op_place(d[3]["op"]) is not None:
+                        fld = an.self_field(op_place(d[3]["op"]))
+                return fld
+            ch = it.chain()
+            zips = [x for x in ch if x[0] == "zip"]
+            others = [n for n in IT.chain_names(ch) if n not in ("zip", "iter", "map")]
+            if len(zips) == 3 and not others and all(len(z[2]) == 1 for z in zips):
+                A = src_field([x for x in ch if x[0] != "zip" and x[0] != "map"])
+                D, C, B = [src_field(z[2][0]) for z in zips]
+                tree = (((A, B), C), D)
+            it.through_casts = True
+            roles = [it.elem_path(a_) for a_ in ht["args"]]
+            stop = (lambda l, it=it: l == it.elem_local)
+            nb = [len(h.slice_locals(a_, through_calls=False, stop=stop)[1]["binops"]) for a_ in ht["args"]]
         chk.ob("C02.b", "project_value/zip-order", tree == ((("project_from", "from"), "project_to"), "to"), g.loc(),
                "zip nesting must be (((project_from, from), project_to), to); found %s" % (tree,))
-        c0 = chk.fn(PROJECT_VALUE + "::{closure#0}")
-        if c0 is not None:
-            hs = an.calls(c0, HYPERGEOM)
-            roles = None
-            if len(hs) == 1:
-                roles = []
-                for a in hs[0][1]["args"]:
-                    sl, info = c0.slice_locals(a, through_calls=False)
-                    r = None
-                    for x in sl:
-                        for d in c0.defs.get(x, []):
-                            if d[0] == "assign" and d[3]["k"] == "use":
-                                p = op_place(d[3]["op"])
-                                if p and p[0] == 2 and p[1]:
-                                    r = tuple(e[1] for e in p[1] if e[0] == "field")
-                    roles.append(r)
-                nb = [len(c0.slice_locals(a, through_calls=False)[1]["binops"]) for a in hs[0][1]["args"]]
-            ok = roles == [(0, 0, 0), (0, 0, 1), (0, 1), (1,)] and nb == [0, 0, 0, 0]
-            chk.ob("C02.b", "project_value::closure/hypergeometric_pmf(size,successes,draws,observed)", ok, c0.loc(),
-                   "arguments must be the zipped (project_from, from, project_to, to) components in that order, unmodified; found tuple paths %s" % (roles,))
-        c1 = chk.fn(PROJECT_VALUE + "::{closure#1}")
-        if c1 is not None:
-            muls = [rv for _, _, _, rv, _ in c1.assigns() if rv["k"] == "binop"]
-            ok = len(muls) == 1 and muls[0]["op"] == "Mul" and {op_local(muls[0]["l"]) and c1.copy_root(op_local(muls[0]["l"])), op_local(muls[0]["r"]) and c1.copy_root(op_local(muls[0]["r"]))} == {2, 3}
-            folds = [(b2, t2) for b2, t2 in g.calls() if callee_is(t2["callee"], N.FOLD)]
-            one = len(folds) == 1 and isinstance(const_val(folds[0][1]["args"][1]), dict) and const_val(folds[0][1]["args"][1]).get("f") == "1.0"
-            chk.ob("C02.b", "project_value/product-of-axis-pmfs", ok and one, c1.loc(), "joint = fold(1.0, |joint, p| joint * p)")
+        ok = roles == [(0, 0, 0), (0, 0, 1), (0, 1), (1,)] and nb == [0, 0, 0, 0]
+        chk.ob("C02.b", "project_value::closure/hypergeometric_pmf(size,successes,draws,observed)", ok, it.loc() if it else g.loc(),
+               "arguments must be the zipped (project_from, from, project_to, to) components in that order, unmodified; found tuple paths %s" % (roles,))
+        # the joint probability: product over every axis, starting from 1.0
+        ok = False
+        why = "accumulation of the returned value not recognised"
+        r0 = g.defs.get(0, [])
+        root = None
+        if len(r0) == 1 and r0[0][0] == "call":
+            root = 0
+        elif len(r0) == 1 and r0[0][0] == "assign" and r0[0][3]["k"] == "use" and op_local(r0[0][3]["op"]) is not None:
+            root = g.copy_root(op_local(r0[0][3]["op"]))
+        acc = IT.accumulation(prog, g, its, root) if root is not None and it is not None else None
+        if acc is not None:
+            ai = acc["it"]
+            res = acc["result"]
+            bo = None
+            if isinstance(res, tuple) and res[0] == "rv" and res[1]["k"] == "binop":
+                bo = res[1]
+            elif not isinstance(res, tuple):
+                bo = an.binop_def(ai.body, res)
+            init = const_val(acc["init"])
+            one = isinstance(init, dict) and init.get("f") == "1.0"
+            mul = False
+            if bo is not None and bo["op"] == "Mul":
+                for x, y in ((bo["l"], bo["r"]), (bo["r"], bo["l"])):
+                    if not acc["is_acc"](x):
+                        continue
+                    if ai is it:
+                        # loop: the factor is the pmf computed in the same body
+                        l = op_local(y)
+                        mul = l is not None and ai.body.copy_root(l) == an.call_dest_local(hs[0][2])
+                    else:
+                        # fold over map(|..| pmf(..)): the factor is the fold's element and the map closure returns the pmf
+                        mt = IT.chain_get(ai.chain(), "map")
+                        mul = ai.elem_path(y) == () and mt is not None and it.kind == "closure" and it.term is mt and an.call_dest_local(hs[0][2]) == 0
+            every = ai.runs_for_every_element() and not ai.switches() and it.runs_for_every_element() and not it.switches()
+            ok = one and mul and every
+            why = "%s: starts at 1.0=%s, joint * pmf=%s, every axis=%s" % (ai.describe(), one, mul, every)
+        chk.ob("C02.b", "project_value/product-of-axis-pmfs", ok, g.loc(), "the joint weight is the product of the per-axis pmfs (%s)" % why)
 
 
 def c02g(chk):
